@@ -55,7 +55,8 @@ def run(R, tier):
 
     # ---- R10.4 formatter impls --------------------------------------------------------------------------------
     eng = D.engine(inline=D.inline_inherent(("scpi::parser::response::ResponseUnit::",)))
-    impls = u.impl_methods("parser::response::Formatter", "response_unit")
+    FWHO = [w for w in ("arrayvec::ArrayVec", "alloc::vec::Vec") if u.trait_methods_for("parser::response::Formatter", w).get("push_byte") is not None and any(w in (x.impl_self or "") for x in u.bodies if "parser::response::Formatter" in (x.impl_trait or ""))]
+    impls = [u.trait_method("parser::response::Formatter", "response_unit", w) for w in FWHO]
     R.floor("R10.4", "Formatter impls", len(impls), 2)
     for b in impls:
         who = "ArrayVec" if "ArrayVec" in (b.impl_self or "") else "Vec" if "Vec" in (b.impl_self or "") else b.impl_self
@@ -89,15 +90,24 @@ def run(R, tier):
                 else:
                     good = False
         R.check(good, "R10.4", "%s::response_unit" % who, "pushes `;` iff the buffer is non-empty, then opens a fresh unit (no header, no data, no error)", "response_unit of the %s formatter must push the unit separator exactly when the buffer is not empty and return a fresh unit: %s" % (who, [D.PathInfo(r).describe() for r in res]), where=b.span)
-    for b in u.impl_methods("parser::response::Formatter", "message_end"):
-        who = "ArrayVec" if "ArrayVec" in (b.impl_self or "") else "Vec"
-        S = sym.Sym(b.mir)
-        e = S.local(0)
-        ok = e[0] == "call" and e[1].endswith("push_byte") and e[3][1] == ("int", 10, "u8") and len(list(b.calls())) == 1
-        R.check(ok, "R10.4", "%s::message_end" % who, "pushes the NL terminator once", "message_end must push exactly one NL: %s" % sym.show(e), where=b.span)
-    for b in u.impl_methods("parser::response::Formatter", "message_start"):
-        who = "ArrayVec" if "ArrayVec" in (b.impl_self or "") else "Vec"
-        R.check(not list(b.calls()), "R10.4", "%s::message_start" % who, "writes nothing", "message_start must not write: %s" % [c.name for c in b.calls()], where=b.span)
+    # message_end / message_start as each formatter gets them (its own impl, or the trait's provided method)
+    for w in FWHO:
+        who = w.split("::")[-1]
+        b = u.trait_method("parser::response::Formatter", "message_end", w)
+        res = eng.run(b, [RefV(Cell(TOP, "buf"), (), True)])
+        ok = bool(res)
+        for r in res:
+            ws = [e for e in r.trace if e.kind == "call" and "Formatter::" in e.name and e.name.split("::")[-1].startswith(("push", "data_separator", "header_separator"))]
+            other = [e for e in r.trace if e.kind == "call" and e not in ws and ("arrayvec" in e.name or "alloc::vec" in e.name)]
+            if r.outcome != "return" or len(ws) != 1 or not ws[0].name.endswith("push_byte") or ("K", 10) not in ws[0].args or other:
+                ok = False
+            elif not (M.outcome(r) in ("Ok",) or M.outcome(r).startswith(("ret:", "Err("))):
+                ok = False
+        R.check(ok, "R10.4", "%s::message_end" % who, "pushes the NL terminator once and returns that write's result", "message_end must push exactly one NL: %s" % [D.PathInfo(r).describe() for r in res][:2], where=b.span)
+        b = u.trait_method("parser::response::Formatter", "message_start", w)
+        res = eng.run(b, [RefV(Cell(TOP, "buf"), (), True)])
+        calls = [e.name for r in res for e in r.trace if e.kind == "call"]
+        R.check(bool(res) and not calls and all(M.outcome(r) == "Ok" for r in res), "R10.4", "%s::message_start" % who, "writes nothing", "message_start must not write: %s" % calls, where=b.span)
     # default separators
     for meth, const in (("data_separator", "RESPONSE_DATA_SEPARATOR"), ("header_separator", "RESPONSE_HEADER_SEPARATOR")):
         b = u.body("scpi::parser::response::Formatter::" + meth)
